@@ -43,3 +43,49 @@ __attribute__((always_inline)) inline bool shape_is(const V& v)
 #define EXPECT_VIEW4(SID, EID, v, E0, E1, E2, E3, WANT, TAG) do { \
     OBLIGE(SID, (cv::shape_is<E0,E1,E2,E3>(v)), E0*1000+E1*100+E2*10+E3, TAG); \
     for_<E0>([&](auto I){ for_<E1>([&](auto J){ for_<E2>([&](auto K){ for_<E3>([&](auto L){ constexpr size_t i = I.value, j = J.value, k = K.value, l = L.value; (void)i; (void)j; (void)k; (void)l; OBLIGE(EID, (long)(v)(i,j,k,l) == (long)(WANT), E0*1000+E1*100+E2*10+E3, TAG, i*10+j, k*10+l); }); }); }); }); } while (0)
+
+// ---- fixed-dimension arrays whose shape is a RUN-TIME value (std::array<size_t,R>): the library takes its run-time branches (loops over
+// len(shape), maybe-typed results). The object is caller-owned and symbolic; ASSUME pins its shape / strides members to the stated extents
+// (the class invariant of a row-major array of that shape), the element values stay symbolic.
+template <size_t... E> using farr = na::ndarray_t<std::array<long,(E * ... * 1)>, std::array<size_t,sizeof...(E)>>;
+namespace cv {
+template <size_t... E, class A>
+__attribute__((always_inline)) inline void assume_shape(const A& a)
+{
+    constexpr size_t R = sizeof...(E); constexpr size_t ext[R] = {E...};
+    for_<R>([&](auto I){
+        constexpr size_t i = I.value;
+        size_t st = 1; for (size_t k = i + 1; k < R; k++) st *= ext[k];
+        ASSUME(a.shape_[i] == ext[i]); ASSUME(a.strides_[i] == st);
+        ASSUME(a.offset_.shape_[i] == ext[i]); ASSUME(a.offset_.strides_[i] == st);
+    });
+}
+} // namespace cv
+
+// ---- bounded-dimension arrays (shape is a utl::static_vector<size_t,4>: the dimension itself is a run-time value, pinned by ASSUME)
+template <size_t... E> using barr = na::ndarray_t<std::array<long,(E * ... * 1)>, nmtools::utl::static_vector<size_t,4>>;
+namespace cv {
+template <size_t... E, class A>
+__attribute__((always_inline)) inline void assume_bounded_shape(const A& a)
+{
+    constexpr size_t R = sizeof...(E); constexpr size_t ext[R] = {E...};
+    ASSUME(a.shape_.size() == R); ASSUME(a.strides_.size() == R); ASSUME(a.offset_.shape_.size() == R); ASSUME(a.offset_.strides_.size() == R);
+    for_<R>([&](auto I){
+        constexpr size_t i = I.value;
+        size_t st = 1; for (size_t k = i + 1; k < R; k++) st *= ext[k];
+        ASSUME(a.shape_[i] == ext[i]); ASSUME(a.strides_[i] == st);
+        ASSUME(a.offset_.shape_[i] == ext[i]); ASSUME(a.offset_.strides_[i] == st);
+    });
+}
+} // namespace cv
+
+// ---- one source, two array kinds: ARR is carr (shape = compile-time constant) unless VERIF_RT_KIND is defined, then farr (shape = run-time
+// value pinned by ASSUME at PIN). VIEW(v, expr): the view expression must have a value (HV_ID names the obligation), v is the unwrapped view.
+#ifdef VERIF_RT_KIND
+template <size_t... E> using ARR = farr<E...>;
+#define PIN(a, ...) cv::assume_shape<__VA_ARGS__>(a)
+#else
+template <size_t... E> using ARR = carr<E...>;
+#define PIN(a, ...) (void)0
+#endif
+#define VIEW(v, ...) auto v##_maybe = (__VA_ARGS__); OBLIGE(HV_ID, nm::has_value(v##_maybe), __LINE__); auto v = nm::unwrap(v##_maybe)
